@@ -21,6 +21,7 @@ RunOK(e) ==
   /\ e.crash = "" /\ ~e.deadlock /\ e.panics = <<>>
   /\ \A i \in DOMAIN e.bugs : BugOK(e, e.bugs[i])
   /\ e.agrees
+  /\ e.stale = ""          \* at every barrier between rounds an excerpt is what its instance holds
   /\ e.clockfile = e.clockmem
 
 ClockOK(e) == e.mem = e.file /\ e.unique /\ e.mem = e.max
